@@ -14,6 +14,7 @@ def check(ctx):
     ctx.rule("C03.T8", "execution premises re-evaluated under this id: a call (and the store write that follows it, and the stale check of a node) starts only after everything it depends on finished successfully; a failed call releases nothing; the callbacks are driven only by the engine")
     ctx.rule("C03.T6", "the stale check examines a copy from which only unregistered source literals were removed")
     ctx.assume("determinism of calls, stores returning what was written and increasing modified times are assumptions of the property; value equality over histories is not decided")
+    ctx.run(E.rule_queue_is_library_queue, "C03.T8", ctx.model.one_func("run_function_on_graph", "ENGINE"))
     from .engineeval import rule_engine_evaluated
     ctx.run(rule_engine_evaluated, "C03.T8", None, ("containment", "order", "once"))
     er = E.discover(ctx.model)
